@@ -11,6 +11,7 @@ Runs W workers in parallel, each with its own git worktree of /repo, its own cop
 Nothing under /repo or /verif is modified except the result file given with --out.
 
 usage: mutcamp.py --out results.jsonl [--workers 4] [--threads 4] [--files a.rs,b.rs] [--limit N] [--seed S]
+       mutcamp.py --seeds --out seeded/REGRESSION.json   (re-run every kept seeded change against the quick check of its property)
 """
 import argparse, json, os, re, random, shutil, subprocess, sys, time
 from concurrent.futures import ThreadPoolExecutor
@@ -192,7 +193,68 @@ class Worker:
                 open(path, "w").write(src)
 
 
+def run_seed(w, d):
+    """apply one kept seeded change in the worker's private worktree, run the quick check of its property"""
+    name = os.path.basename(d.rstrip("/"))
+    meta = json.load(open(os.path.join(d, "meta.json")))
+    cid = meta.get("regress_check", meta["property"])
+    t0 = time.time()
+    rc, out = sh(f"git -C {w.repo} apply {os.path.join(d, 'patch.diff')}")
+    if rc != 0:
+        return {"seed": name, "check": cid, "verdict": "patch no longer applies to HEAD"}
+    try:
+        rc, out = sh(f"cargo build --release --offline -q -j{w.threads}", cwd=w.harness, env=w.env, timeout=1800)
+        if rc != 0:
+            return {"seed": name, "check": cid, "verdict": "harness does not build against the change", "detail": out[-400:]}
+        exe = os.path.join(w.base, "htarget/release/rvmc")
+        rc, out = sh(f"{exe} {cid} --tier quick", cwd=VERIF, env=w.env, timeout=2400)
+        sigs = re.findall(r"signature: (.*)", out)
+        verdict = "detected" if (rc == 1 or "VIOLATION" in out) else ("NOT DETECTED" if rc == 0 else f"machinery exit {rc}")
+        return {"seed": name, "check": cid, "verdict": verdict, "signatures": [x[:160] for x in sigs[:3]], "secs": round(time.time() - t0)}
+    finally:
+        sh(f"git -C {w.repo} checkout -- .")
+
+
+def main_seeds(a):
+    import glob, queue, threading
+    seeds = sorted(glob.glob(os.path.join(VERIF, "seeded", "*", "")))
+    os.makedirs(a.work, exist_ok=True)
+    workers = [Worker(i, a.work, a.threads) for i in range(a.workers)]
+    q = queue.Queue()
+    for d in seeds:
+        q.put(d)
+    res, lock = {}, threading.Lock()
+    def loop(w):
+        while True:
+            try:
+                d = q.get_nowait()
+            except queue.Empty:
+                return
+            try:
+                r = run_seed(w, d)
+            except Exception as e:
+                r = {"seed": os.path.basename(d.rstrip("/")), "verdict": f"error: {e}"}
+            with lock:
+                res[r["seed"]] = r
+                json.dump(res, open(a.out, "w"), indent=1, sort_keys=True)
+                print(r["seed"], r.get("check"), r["verdict"], (r.get("signatures") or [""])[0][:100], flush=True)
+    with ThreadPoolExecutor(len(workers)) as ex:
+        list(ex.map(loop, workers))
+    for w in workers:
+        w.close()
+    det = sum(1 for r in res.values() if r["verdict"] == "detected")
+    print(f"{det} of {len(res)} detected")
+
+
 def main():
+    if "--seeds" in sys.argv:
+        ap = argparse.ArgumentParser()
+        ap.add_argument("--seeds", action="store_true")
+        ap.add_argument("--out", required=True)
+        ap.add_argument("--workers", type=int, default=4)
+        ap.add_argument("--threads", type=int, default=4)
+        ap.add_argument("--work", default="/tmp/mcseeds")
+        return main_seeds(ap.parse_args())
     ap = argparse.ArgumentParser()
     ap.add_argument("--out", required=True)
     ap.add_argument("--workers", type=int, default=4)
